@@ -196,10 +196,12 @@ def run_lie(ctx, ltype, L, batch, dim_first, fn, order, inplace, dtype):
 
 
 def gen_traces(ctx):
+    """The calls are made in a shuffled order (seeded): the result must depend on the input only, not on
+    which lengths were scanned before in the same process."""
     import torch
     q = ctx.quick
     rng = ctx.rng
-    traces = []
+    jobs = []
     fns = [("cumops", "right"), ("cumprod", "left"), ("cumprod", "right"), ("cummul", "left"), ("cummul", "right")]
     # every L: the index schedule depends only on L
     Lmax = 640 if q else 4096
@@ -209,16 +211,16 @@ def gen_traces(ctx):
         if q and L <= 64:
             combos = [(f, o, ip) for f, o in fns for ip in (False, True)]
         for f, o, ip in combos:
-            traces.append(run_interval(ctx, (L,), 0, f, o, ip))
+            jobs.append(("interval", (L,), 0, f, o, ip))
     if q:
         for k in range(10, 13):
             for L in (2 ** k - 1, 2 ** k, min(2 ** k + 1, 4096)):
                 f, o = fns[(L + k) % len(fns)]
-                traces.append(run_interval(ctx, (L,), 0, f, o, bool(k % 2)))
-        for _ in range(12):
+                jobs.append(("interval", (L,), 0, f, o, bool(k % 2)))
+        for _ in range(24):
             L = rng.randint(641, 4096)
             f, o = rng.choice(fns)
-            traces.append(run_interval(ctx, (L,), 0, f, o, rng.random() < 0.5))
+            jobs.append(("interval", (L,), 0, f, o, rng.random() < 0.5))
     # every dim of tensors up to rank 4
     for rank in range(1, 5):
         for dim in range(rank):
@@ -226,15 +228,25 @@ def gen_traces(ctx):
                 shape = [rng.randint(1, 3) for _ in range(rank)]
                 shape[dim] = L
                 for f, o in fns:
-                    traces.append(run_interval(ctx, tuple(shape), dim, f, o, rng.random() < 0.5))
+                    jobs.append(("interval", tuple(shape), dim, f, o, rng.random() < 0.5))
     # lattice LieTensors, all four group types, both dtypes
     for ltype in ("SO3", "SE3", "RxSO3", "Sim3"):
         for dtype in (torch.float64, torch.float32):
             for L in ([1, 2, 3, 5, 6, 7, 8, 9, 12, 17] if q else list(range(1, 41)) + [63, 64, 65, 100]):
                 for fn in ("cumprod", "cummul"):
                     for order in ("left", "right"):
-                        traces.append(run_lie(ctx, ltype, L, rng.randint(1, 3), rng.random() < 0.5, fn, order,
-                                              rng.random() < 0.5, dtype))
+                        jobs.append(("lie", ltype, L, rng.randint(1, 3), rng.random() < 0.5, fn, order,
+                                     rng.random() < 0.5, dtype))
+    rng.shuffle(jobs)
+    # a few long scans right at the start, before any medium-sized one (history dependence across calls)
+    early = [("interval", (rng.randint(2100, 4096),), 0) + rng.choice(fns) + (False,) for _ in range(3)]
+    jobs = [("interval", (3,), 0, "cumops", "right", False)] + early + jobs
+    traces = []
+    for j in jobs:
+        if j[0] == "interval":
+            traces.append(run_interval(ctx, *j[1:]))
+        else:
+            traces.append(run_lie(ctx, *j[1:]))
     return traces
 
 
@@ -289,9 +301,9 @@ def run(ctx):
 def selftest(ctx):
     good = run_interval(ctx, (8,), 0, "cumops", "right", False)
     bad1 = json.loads(json.dumps(good))
-    bad1["ev"][1]["stride"] = 3
+    bad1["ev"][1]["asc"] = False
     bad2 = json.loads(json.dumps(good))
-    del bad2["ev"][1]
+    bad2["ev"][-1]["last"] = [1, 7]
     v = ctx.validate("ScanTrace", "ScanTrace.cfg", [good, bad1, bad2], "selftest")
     print("selftest verdicts:", v)
     assert v[0] == "ok" and v[1] != "ok" and v[2] != "ok", v
